@@ -241,7 +241,7 @@ class CFG:
                     break
             return []
         if isinstance(st, ast.Try) or (hasattr(ast, "TryStar") and isinstance(st, getattr(ast, "TryStar"))):
-            t = self._new("stmt", st, tag)  # the 'try:' line itself (no effect)
+            t = self._new("try", st, tag)  # the try: line itself (no effect)
             self._connect(frontier, t)
             base = stack
             if st.finalbody:
